@@ -149,16 +149,41 @@ def run(chk):
                     def entry(env, it):
                         chk.eq(f"{tag}.loop_entry", env["res"], 1, fn=fnn, goal="res == 1 before the first step", replay=rp)
 
+                    used = []
+                    real_step = nsq.fixed_alphaem_exact
+
+                    def recording_step(order_, gam_, a1_, a0_, aem_, nf_, mf_, mt_):
+                        used.append((a1_, a0_, aem_))
+                        return real_step(order_, gam_, a1_, a0_, aem_, nf_, mf_, mt_)
+
                     def preserved(env):
-                        want = state["res"] * ns.dispatcher((n, 0), EvoMethods.ITERATE_EXACT, g[:n].copy(), aL[step], aL[step - 1], 4)
-                        chk.eq(f"{tag}.loop_preserved", env["res"], want, fn=fnn, replay=rp, goal="arbitrary step: res' == res * K_QCD(as_list[step], as_list[step-1])")
+                        # the invariant speaks about the couplings the step kernel was actually given, not about how the loop indexes them: exactly one step kernel per
+                        # iteration, built on two CONSECUTIVE elements of as_list (a1 = as_list[i+1], a0 = as_list[i]) with the a_em of the step (zero here)
+                        ok = len(used) == 1
+                        a1u, a0u = (used[0][0], used[0][1]) if used else (aL[step], aL[step - 1])
+                        if ok:
+                            n1, n0 = T._nodes[T.lift(a1u).n], T._nodes[T.lift(a0u).n]
+                            ok = n1[0] == "app" and n0[0] == "app" and n1[1] == n0[1] == "as_list" and len(n1[2]) == len(n0[2]) == 1
+                            if ok:
+                                d = T.Sym(n1[2][0]) - T.Sym(n0[2][0]) - 1
+                                ok = bool(P.prove_zero(d)[0]) and (not used or (isinstance(used[0][2], (int, Q)) and used[0][2] == 0))
+                        chk.ground(f"{tag}.loop_step_on_consecutive_couplings", ok, fn=fnn, replay=rp, goal="one step kernel per iteration, from as_list[i] to as_list[i+1], with the a_em of that step",
+                                   detail=f"step kernels called with {[(str(x[0]), str(x[1])) for x in used]}")
+                        want = state["res"] * ns.dispatcher((n, 0), EvoMethods.ITERATE_EXACT, g[:n].copy(), a1u, a0u, 4)
+                        chk.eq(f"{tag}.loop_preserved", env["res"], want, fn=fnn, replay=rp, goal="arbitrary step: res' == res * K_QCD(a_(i+1), a_i) for the couplings of the step")
+                        used.clear()
 
                     tag0 = tag
                     for running in (True, False):       # alpha_em running along the path / frozen: both configurations reach the dispatcher
                         tag = tag0 if running else tag0 + "[alphaem frozen]"
                         hook.ACTIVE_CUTS.clear()
                         hook.ACTIVE_CUTS[("eko.kernels.non_singlet_qed", "exact", 0)] = LoopSpec(fresh2, lambda: step, entry, preserved)
-                        ret = nsq.dispatcher((n, m), EvoMethods.ITERATE_EXACT, GG.copy(), aL, Zero(), running, 4, N, muf, mut)
+                        used.clear()
+                        nsq.fixed_alphaem_exact = recording_step
+                        try:
+                            ret = nsq.dispatcher((n, m), EvoMethods.ITERATE_EXACT, GG.copy(), aL, Zero(), running, 4, N, muf, mut)
+                        finally:
+                            nsq.fixed_alphaem_exact = real_step
                         if hook.ACTIVE_CUTS[("eko.kernels.non_singlet_qed", "exact", 0)].entered > 0:
                             chk.ground(f"{tag}.all_steps_covered", True, fn=fnn, goal="the step loop is the one under contract (invariant above), or the result is the QCD kernel between the end points", replay=rp)
                         else:      # no loop: by exact composition (C10) the product of the QCD step kernels is the QCD kernel between the end points
@@ -168,6 +193,18 @@ def run(chk):
                                    goal="the step loop is the one under contract (invariant above), or the result is the QCD kernel between the end points",
                                    assumptions=[muf > 0, mut > 0], ranges={"mu2_from": (2.0, 50.0), "mu2_to": (2.0, 50.0), "*": (0.3, 2.0)})
                     tag = tag0
+                    # concrete numbers of steps, loop executed as it is: every interval of as_list is visited exactly once (the cut above says nothing about the range)
+                    hook.ACTIVE_CUTS.clear()
+                    for K in (1, 2, 3):
+                        asl = [T.var(f"as_{j}") for j in range(K + 1)]
+                        for running in (True, False):
+                            got = nsq.dispatcher((n, m), EvoMethods.ITERATE_EXACT, GG.copy(), asl, [Q(0)] * K, running, 4, K, muf, mut)
+                            want = 1
+                            for j in range(1, K + 1):
+                                want = want * ns.dispatcher((n, 0), EvoMethods.ITERATE_EXACT, g[:n].copy(), asl[j], asl[j - 1], 4)
+                            chk.eq(f"{tag}.unrolled[steps={K},{'running' if running else 'frozen'}]", got, want, fn="eko.kernels.non_singlet_qed:dispatcher", replay=rp,
+                                   goal="K steps: the kernel == product of the QCD kernels of all K intervals of as_list", assumptions=[muf > 0, mut > 0] + [x > 0 for x in asl],
+                                   ranges={"mu2_from": (2.0, 50.0), "mu2_to": (2.0, 50.0), "*": (0.01, 0.05)})
                 finally:
                     e4.roots = saved_roots
                     hook.ACTIVE_CUTS.clear()
